@@ -23,6 +23,7 @@ import (
 	"math/big"
 	"os"
 	"os/exec"
+	"path/filepath"
 	"runtime"
 	"runtime/pprof"
 	"sort"
@@ -1505,98 +1506,128 @@ func mustJSON(v interface{}) []byte {
 // probe mode (C07_PROBE=<case json>): run one case in this process, without tracer and model, under an
 // address-space limit, and print one line.  The parent uses it for inputs that could make a broken
 // contract take the whole process down (a Go "fatal error: out of memory" cannot be recovered).
-func probeMain(js string) {
-	var k tcase
-	if err := json.Unmarshal([]byte(js), &k); err != nil {
-		fmt.Println("probe-bad-case", err)
+func probeMain(file string) {
+	raw, err := os.ReadFile(file)
+	var ks []tcase
+	if err == nil {
+		err = json.Unmarshal(raw, &ks)
+	}
+	if err != nil {
+		fmt.Println("probe-bad-input", err)
 		os.Exit(3)
 	}
 	lim := uint64(6 << 30)
 	syscall.Setrlimit(syscall.RLIMIT_AS, &syscall.Rlimit{Cur: lim, Max: lim})
-	st := buildState(&k)
-	caller := addr0x(k.Caller)
-	ctx := vm.Context{CanTransfer: core.CanTransfer, Transfer: core.Transfer, GetHash: getHash,
-		Origin: caller, GasPrice: big.NewInt(gasPriceV), Coinbase: common.HexToAddress(coinbaseHx), GasLimit: gasLimit,
-		BlockNumber: big.NewInt(k.Height), Time: big.NewInt(timeV), Difficulty: big.NewInt(diffV)}
-	evm := vm.NewEVM(ctx, st, params.MainnetChainConfig, vm.Config{})
-	data := []byte{}
-	if k.Data != "-" && k.Data != "" {
-		data = vh.UnHex(k.Data)
-	}
-	var m0, m1 runtime.MemStats
-	runtime.ReadMemStats(&m0)
-	var left uint64
-	pan, pv := vh.CatchPanic(func() {
-		if k.Kind == "call" {
-			_, left, _ = evm.Call(vm.AccountRef(caller), addr0x(k.Target), data, k.Gas, big0x(k.Value))
-		} else {
-			_, _, left, _ = evm.Create(vm.AccountRef(caller), data, k.Gas, big0x(k.Value))
+	for i := range ks {
+		k := &ks[i]
+		fmt.Printf("probe-start %d\n", i)
+		st := buildState(k)
+		caller := addr0x(k.Caller)
+		ctx := vm.Context{CanTransfer: core.CanTransfer, Transfer: core.Transfer, GetHash: getHash,
+			Origin: caller, GasPrice: big.NewInt(gasPriceV), Coinbase: common.HexToAddress(coinbaseHx), GasLimit: gasLimit,
+			BlockNumber: big.NewInt(k.Height), Time: big.NewInt(timeV), Difficulty: big.NewInt(diffV)}
+		evm := vm.NewEVM(ctx, st, params.MainnetChainConfig, vm.Config{})
+		data := []byte{}
+		if k.Data != "-" && k.Data != "" {
+			data = vh.UnHex(k.Data)
 		}
-	})
-	runtime.ReadMemStats(&m1)
-	if pan {
-		fmt.Printf("probe-done panic %s\n", firstLine(fmt.Sprint(pv)))
-		return
+		var m0, m1 runtime.MemStats
+		runtime.ReadMemStats(&m0)
+		var left uint64
+		pan, pv := vh.CatchPanic(func() {
+			if k.Kind == "call" {
+				_, left, _ = evm.Call(vm.AccountRef(caller), addr0x(k.Target), data, k.Gas, big0x(k.Value))
+			} else {
+				_, _, left, _ = evm.Create(vm.AccountRef(caller), data, k.Gas, big0x(k.Value))
+			}
+		})
+		runtime.ReadMemStats(&m1)
+		if pan {
+			fmt.Printf("probe-done %d panic %s\n", i, firstLine(fmt.Sprint(pv)))
+		} else {
+			fmt.Printf("probe-done %d ok %d %d\n", i, left, m1.TotalAlloc-m0.TotalAlloc)
+		}
 	}
-	fmt.Printf("probe-done ok %d %d\n", left, m1.TotalAlloc-m0.TotalAlloc)
 }
 
-// probe runs the case in a child process; healthy = it came back without panic and within the heap bound
-func (ch *checker) probe(k *tcase) (healthy bool) {
-	cmd := exec.Command(os.Args[0])
-	cmd.Env = append(os.Environ(), "C07_PROBE="+string(mustJSON(k)))
-	type res struct {
-		out []byte
-		err error
-	}
-	done := make(chan res, 1)
-	go func() {
-		o, err := cmd.CombinedOutput()
-		done <- res{o, err}
-	}()
-	var r res
-	select {
-	case r = <-done:
-	case <-time.After(30 * time.Second):
-		if cmd.Process != nil {
-			cmd.Process.Kill()
+// probeBatch runs the cases in child processes (one process as long as it survives); healthy[i] = case i
+// came back (or panicked recoverably) within the heap bound.  After three crashes the rest is left out.
+func (ch *checker) probeBatch(ks []*tcase) []bool {
+	healthy := make([]bool, len(ks))
+	crashes := 0
+	for from := 0; from < len(ks) && crashes < 3; {
+		f := filepath.Join(ch.c.OutDir, "probe.json")
+		os.WriteFile(f, mustJSON(ks[from:]), 0o644)
+		cmd := exec.Command(os.Args[0])
+		cmd.Env = append(os.Environ(), "C07_PROBE="+f)
+		type res struct {
+			out []byte
+			err error
 		}
-		ch.c.Violate("no-termination/"+k.Class+"/"+caseHash(k), "the call did not return within 30 s (child process killed)", k)
-		return false
-	}
-	out := string(r.out)
-	i := strings.Index(out, "probe-done ")
-	if i < 0 {
-		msg := "no output"
-		for _, l := range strings.Split(out, "\n") {
-			if strings.HasPrefix(l, "fatal error") || strings.HasPrefix(l, "runtime:") {
-				msg = l
-				if strings.HasPrefix(l, "fatal error") {
-					break
+		done := make(chan res, 1)
+		go func() {
+			o, err := cmd.CombinedOutput()
+			done <- res{o, err}
+		}()
+		var r res
+		timedOut := false
+		select {
+		case r = <-done:
+		case <-time.After(20 * time.Second):
+			if cmd.Process != nil {
+				cmd.Process.Kill()
+			}
+			r = <-done
+			timedOut = true
+		}
+		started, finished := -1, -1
+		fatal := "no output"
+		for _, l := range strings.Split(string(r.out), "\n") {
+			fl := strings.Fields(l)
+			switch {
+			case len(fl) == 2 && fl[0] == "probe-start":
+				fmt.Sscan(fl[1], &started)
+			case len(fl) >= 3 && fl[0] == "probe-done":
+				fmt.Sscan(fl[1], &finished)
+				k := ks[from+finished]
+				healthy[from+finished] = true
+				if fl[2] == "ok" && len(fl) == 5 {
+					var left, alloc uint64
+					fmt.Sscan(fl[3], &left)
+					fmt.Sscan(fl[4], &alloc)
+					used := k.Gas - left
+					if left > k.Gas {
+						used = 0
+					}
+					if used <= (1<<62)/heapPerGas && alloc > heapBase+heapPerGas*used {
+						healthy[from+finished] = false
+						ch.c.Violate("heap-not-paid-for/"+caseHash(k), fmt.Sprintf("the call allocated %d bytes on the Go heap for %d gas paid (bound %d + %d per gas; measured in a child process)", alloc, used, heapBase, heapPerGas), k)
+					}
 				}
+			case strings.HasPrefix(l, "fatal error"):
+				fatal = l
+			case strings.HasPrefix(l, "runtime:") && fatal == "no output":
+				fatal = l
 			}
 		}
-		ch.c.Violate("node-crash/"+k.Class+"/"+firstLine(msg), fmt.Sprintf("the call takes the whole process down (not recoverable): %s (%v)", firstLine(msg), r.err), k)
-		return false
-	}
-	f := strings.Fields(firstLine(out[i:]))
-	if len(f) >= 2 && f[1] == "panic" {
-		return true // recoverable: the in-process run reports it with the usual signature
-	}
-	if len(f) == 4 {
-		var left, alloc uint64
-		fmt.Sscan(f[2], &left)
-		fmt.Sscan(f[3], &alloc)
-		used := k.Gas - left
-		if left > k.Gas {
-			used = 0
+		if finished == len(ks)-from-1 {
+			break
 		}
-		if used <= (1<<62)/heapPerGas && alloc > heapBase+heapPerGas*used {
-			ch.c.Violate("heap-not-paid-for/"+caseHash(k), fmt.Sprintf("the call allocated %d bytes on the Go heap for %d gas paid (bound %d + %d per gas; measured in a child process)", alloc, used, heapBase, heapPerGas), k)
-			return false
+		// the child died (or hung) inside case `started`
+		crashes++
+		if started < 0 {
+			ch.c.Fatal("probe child produced nothing: %s", firstLine(string(r.out)))
 		}
+		k := ks[from+started]
+		if timedOut {
+			ch.c.Violate("no-termination/"+k.Class+"/"+caseHash(k), "the call did not return within 20 s (child process killed)", k)
+			crashes = 3 // one replay of this kind is enough; do not spend minutes
+		} else {
+			ch.c.Violate("node-crash/"+k.Class+"/"+firstLine(fatal), fmt.Sprintf("the call takes the whole process down, not recoverable: %s (%v)", firstLine(fatal), r.err), k)
+		}
+		from += started + 1
 	}
-	return true
+	return healthy
 }
 
 func main() {
@@ -1994,7 +2025,25 @@ func (ch *checker) precompileStream(g *gen) {
 	for p := int64(1); p <= 9; p++ {
 		inner := precInner[byte(p)]
 		tripped := false
-		for idx, in := range g.adversarialInputs(p) {
+		inputs := g.adversarialInputs(p)
+		riskyOK := map[string]bool{}
+		if p == 5 {
+			// inputs that would make a broken contract allocate without bound go to a child process first
+			var ks []*tcase
+			var ins [][]byte
+			for _, in := range inputs {
+				if modexpRisky(in) {
+					ks = append(ks, &tcase{Kind: "call", Height: 40000, Gas: gasLimit, Value: "0x0", Caller: ha(addrCaller), Target: "0x5", Data: hexb(in),
+						Accts: baseAccts(nil, nil, nil), Class: "precompile-stream/5"})
+					ins = append(ins, in)
+				}
+			}
+			for i, ok := range ch.probeBatch(ks) {
+				riskyOK[string(ins[i])] = ok
+			}
+			c.Note("precompile stream: %d bigModExp inputs with a length field >= 2^20 were first run in a child process", len(ks))
+		}
+		for idx, in := range inputs {
 			if p == 5 && tripped && modexpDanger(in) >= 1<<26 {
 				c.Count("precompile-stream/skipped-after-violation")
 				continue // do not let a broken contract exhaust the machine: one replay is enough
@@ -2036,12 +2085,10 @@ func (ch *checker) precompileStream(g *gen) {
 					k := &tcase{Kind: "call", Height: h, Gas: gas, Value: "0x0", Caller: ha(addrCaller), Target: hx(big.NewInt(p)), Data: hexb(in),
 						Accts: baseAccts(nil, nil, nil), Class: fmt.Sprintf("precompile-stream/%d", p)}
 					before := len(c.Res.Violations)
-					if p == 5 && active && modexpRisky(in) {
-						c.Count("precompile-stream/probed-in-child-process")
-						if !ch.probe(k) {
-							tripped = true
-							continue
-						}
+					if p == 5 && active && modexpRisky(in) && !riskyOK[string(in)] {
+						c.Count("precompile-stream/left-out-after-child-crash")
+						tripped = true
+						continue
 					}
 					// the extracted model computes a 256-bit modular exponentiation in about a second: sampled
 					heavy := p == 5 && len(in) > 128 && in[63] >= 31 && in[95] >= 31
